@@ -544,6 +544,13 @@ def _hv_truth(prog):
     return hv_truth(prog)
 
 
+def _domain_given(prog):
+    # 'exactly the domain elements of type T': the root variable of a pattern ranges over the domain the pattern was given, an empty one included
+    from .c13 import domain_given
+
+    return domain_given(prog)
+
+
 def match_select(prog: Program) -> RuleResult:
     """'Selected inner parts are reported consistently with the matched element.'  A nested select is resolved like a nested match: on the
     attribute, or - for a collection attribute with constraints - on its flattened elements, and there it selects the variable it was resolved
@@ -593,4 +600,4 @@ def run(prog: Program, tier: str) -> List[RuleResult]:
     # match_any compiles to the existential quantifier: one answer per binding of the free variables
     return [guard(lambda: match_table(prog)), guard(lambda: match_kind(prog)), guard(lambda: match_iter(prog)), guard(lambda: match_factory(prog)), guard(lambda: match_memo_order(prog)), guard(lambda: match_ops(prog)), guard(lambda: ident_dedup(prog)), guard(lambda: domain_cache(prog)), guard(lambda: ep_quant(prog)),
             # selected inner parts are evaluated under the bindings of the matched element: the row threading of C01
-            guard(lambda: ep_thread(prog)), guard(lambda: _hv_truth(prog)), guard(lambda: _carry1(prog)), guard(lambda: match_select(prog))]
+            guard(lambda: ep_thread(prog)), guard(lambda: _hv_truth(prog)), guard(lambda: _carry1(prog)), guard(lambda: match_select(prog)), guard(lambda: _domain_given(prog))]
